@@ -31,6 +31,8 @@ type Case struct {
 	Prev  string   `json:"prev,omitempty"` // text: parsed into the same Board value before FEN (the tuner reuses one board)
 	More  []string `json:"more,omitempty"` // uci: further `position fen` commands of the same session, each followed by `fen`
 	Raw   []byte   `json:"raw,omitempty"`
+	// Before (uci): conforming position / ucinewgame lines sent on the same driver first (gen.EarlierPositions)
+	Before []string `json:"before,omitempty"`
 }
 
 func sameBoards(a, b *board.Board) string {
@@ -163,7 +165,7 @@ func readingOf(cmd, fen string) bool {
 }
 
 func checkUCI(c Case, rec *evid.Rec) error {
-	lines := []string{"position fen " + c.FEN, "fen"}
+	lines := append(append([]string{}, c.Before...), "position fen "+c.FEN, "fen")
 	if c.Bad != "" {
 		lines = append(lines, c.Bad, "fen")
 	}
@@ -447,6 +449,9 @@ func TestC11(t *testing.T) {
 				p = gen.Playout(t, r, 10, nil)
 			}
 			c := Case{Kind: "uci", FEN: p.FEN()}
+			if c.Before = gen.EarlierPositions(t, c.FEN, false, nil); len(c.Before) > 0 {
+				rec.Class("uci_earlier_position_commands")
+			}
 			if gen.Chance(t, 1, 2, "session") {
 				for k := gen.Draw(t, 1, 3, "more"); k > 0; k-- {
 					r2, _ := gen.Root(t)
